@@ -171,6 +171,28 @@ class Obs:
         return sorted(self.HS[k], key=lambda h: (h["dl"], h["idx"]))
 
 
+def align_behaviours(tasks, obs):
+    """The harness hands behaviour i of a task to the i-th handler invocation of that task that reaches its log mutex.
+    Two attempts of one task can be received by two inner workers in the same virtual instant (attempt a still queued
+    when the parent context is cancelled, attempt a+1 created, decided and enqueued in that instant) and reach the
+    mutex in the other order: attempt a (attempts are identified by their ctx deadline) then ran behaviour n_a != a.
+    The scripted behaviours are an input the theorems quantify over, so the model is given them in the order in which
+    the attempts actually ran them (the script line itself is unchanged).  Returns the number of tasks re-ordered."""
+    changed = 0
+    if not obs.ok:
+        return 0
+    for k, t in enumerate(tasks):
+        att = obs.attempts(k)
+        ns = [h["n"] - 1 for h in att]
+        if ns == list(range(len(ns))) or len(set(ns)) != len(ns) or any(n >= len(t.behs) for n in ns):
+            continue
+        order = ns + [i for i in range(len(t.behs)) if i not in ns]
+        t.behs = [t.behs[i] for i in order]
+        t.cancels = [t.cancels[i] for i in order]
+        changed += 1
+    return changed
+
+
 def structural_problems(tasks, obs):
     """things that make the log unusable for a replay (each is itself a property violation
     or a harness problem); returned as [(key, what)]"""
@@ -337,9 +359,32 @@ def parse_model_ok(out):
     return res
 
 
+def overlap_bounds(obs):
+    """(lo, hi): the maximum number of simultaneously running handlers computed from the start / return STAMPS only:
+    lo = a handler returning at t does not overlap one starting at t, hi = it does.  The order of starts and returns
+    within ONE virtual instant is the runtime's; the replay may pick another accepted order of that instant, so its
+    running maximum can be anywhere in [lo, hi] (the implementation's own counter is in it too)."""
+    evs = []
+    for k in obs.HS:
+        for h in obs.HS[k]:
+            he = obs.HE.get((k, h["n"]))
+            evs.append((h["t"], 1))
+            if he:
+                evs.append((he["t"], -1))
+
+    def sweep(ends_first):
+        cur = mx = 0
+        for _, d in sorted(evs, key=lambda e: (e[0], e[1] if ends_first else -e[1])):
+            cur += d
+            mx = max(mx, cur)
+        return mx
+    return sweep(True), sweep(False)
+
+
 def impl_projection(tasks, obs, with_pairs=True):
     """what the model must reproduce, computed from the log"""
     res = dict(maxrun=max([r for _, _, r in obs.runs] + [0]), tasks={})
+    res["maxrun_lo"], res["maxrun_hi"] = overlap_bounds(obs)
     for k, t in enumerate(tasks):
         g = []   # reads in the order of the history: Get2, Get1 (value only), Err() (error only), final Get2
         for sub, d in ((0, obs.G.get(k)), (0.3, obs.G1.get(k)), (0.6, obs.ER.get(k)), (0.9, obs.GG.get(k))):
@@ -372,7 +417,7 @@ def read_matches(impl, model):
 
 def compare_one(want, got, with_pairs=True):
     """impl projection vs one model OK result: None or a note"""
-    if want["maxrun"] != got["maxrun"]:
+    if want["maxrun"] != got["maxrun"] and not (want.get("maxrun_lo", want["maxrun"]) <= got["maxrun"] <= want.get("maxrun_hi", want["maxrun"])):
         return "maximum number of simultaneously running handlers: implementation %d, model %d" % (want["maxrun"], got["maxrun"])
     for k, w in want["tasks"].items():
         m = got["tasks"].get(k)
@@ -806,6 +851,7 @@ def run_cases(chk, binary, lines, urg=True, mode="fixed"):
         r.hd_ties, r.other_ties = (set(), [])
         r.model_out, r.note, r.mline = None, None, None
         if not r.problems:
+            r.realigned = align_behaviours(r.tasks, r.obs)
             r.hd_ties, r.other_ties = find_ties(r.tasks, r.obs)
             try:
                 ev = log_to_history(r.tasks, r.obs, r.hd_ties)
